@@ -17,6 +17,11 @@ def main(tier):
     from props.C04 import TransitionTask
     for m in range(0, 9):
         run.add(TransitionTask(m, prop='C07'))
+    # equal _decode calls give equal messages whatever the decoder decoded before: the outcome contract and the frame
+    # conditions of _decode (also part of C10 / C16)
+    from contracts.decoder_c import DecodeTask
+    for combined in (True, False):
+        run.add(DecodeTask('C07', combined, False))
     from props import C07_extra
     C07_extra.add(run, tier)
     run.extra_cov['exhaustive'] = True
